@@ -93,11 +93,79 @@ def s14_fixed_point_io(ctx):
     return res
 
 
-STREAMS = [s14_routes, s14_fixed_point_io]
+def s14_slivers(ctx):
+    """traces that clip a corner of the area so that the part inside is a sliver of 0.5 .. 4 x snap: whatever the package decides
+    to do with a sliver (the documented minimum trace length is 2.01 x snap), all four routes must decide the same"""
+    import_fractopo()
+    import math
+
+    from shapely.geometry import box
+
+    res = StreamResult("S14-slivers", rule="a fixed valid base (X, Y, boundary cuts) + 1..4 traces clipping the corners of a box area with a chord of "
+                       "0.5 .. 4 x snap inside (sliver shorter / longer than the minimum trace length 2.01 x snap), thresholds 0.1 / 0.01 / 0.001, offsets 0 / 1e4: "
+                       "the four routes must give the same node and branch tables (classes and counts; coordinates within snap/100); "
+                       "non-trivial = at least one sliver with a chord in (1.01, 2.01] x snap")
+    rng = rng_for(ctx.seed, "S14s")
+    for _ in range(budget(ctx.tier, 24, 500)):
+        t = rng.choice([0.1, 0.01, 0.001])
+        off = rng.choice([0.0, 10000.0])
+        h = rng.choice([50.0, 64.0])
+        area = box(off - h, off - h, off + h, off + h)
+        base = [[(-70.0, 3.0), (70.0, 5.0)], [(-20.0, -70.0), (-18.0, 30.0)], [(10.0, 4.142857142857143 if False else 4.0 + 10.0 / 70.0), (14.0, 40.0)]]
+        base = [[(-70.0, 3.0), (70.0, 3.0)], [(-20.0, -70.0), (-20.0, 30.0)], [(10.0, 3.0), (14.0, 40.0)]]
+        traces = [[(off + x, off + y) for x, y in l] for l in base]
+        chords = []
+        for (sx, sy) in rng.sample([(1, 1), (1, -1), (-1, 1), (-1, -1)], rng.randint(1, 4)):
+            c = rng.choice([0.5, 0.9, 1.2, 1.5, 1.8, 2.0, 2.3, 3.0, 4.0])
+            s_ = c * t / math.sqrt(2.0)
+            p = (off + sx * (h - s_ - 3.0), off + sy * (h + 3.0))
+            q = (off + sx * (h + 3.0), off + sy * (h - s_ - 3.0))
+            traces.append([p, q] if rng.random() < 0.5 else [q, p])
+            chords.append(c)
+        rng.shuffle(traces)
+        case = {"stream": "S14-slivers", "t": t, "traces": traces, "area_wkt": area.wkt, "chords_over_t": chords}
+        d = _compare_routes(case)
+        res.evaluations += 1
+        if any(1.01 < c <= 2.01 for c in chords):
+            res.nontrivial += 1
+        res.distribution[f"slivers={len(chords)}"] = res.distribution.get(f"slivers={len(chords)}", 0) + 1
+        if d is not None:
+            res.disagreements.append(d)
+    res.samples = [{"example_chords_over_t": [0.5, 1.5, 2.3]}]
+    return res
+
+
+def _compare_routes(case):
+    from shapely import wkt as _wkt
+
+    area = _wkt.loads(case["area_wkt"])
+    t = case["t"]
+    traces = [[(F(x), F(y)) for x, y in l] for l in case["traces"]]
+    tables = {}
+    for route in ALL_ROUTES:
+        try:
+            nodes, branches = c01.impl_topology(traces, area, t, route)
+        except Exception as e:  # noqa: BLE001
+            tables[route] = f"{type(e).__name__}: {str(e)[:120]}"
+            continue
+        tables[route] = (sorted((round(p[0] / (t / 100)), round(p[1] / (t / 100)), c) for p, c in nodes),
+                         sorted((lab,) + tuple(sorted([(round(a[0] / (t / 100)), round(a[1] / (t / 100))), (round(b[0] / (t / 100)), round(b[1] / (t / 100)))])) for lab, a, b in branches))
+    ref = tables[ALL_ROUTES[0]]
+    for route in ALL_ROUTES[1:]:
+        if tables[route] != ref:
+            summ = {r: (v if isinstance(v, str) else {"nodes": dict(Counter(c for _, _, c in v[0])), "branches": dict(Counter(b[0] for b in v[1]))}) for r, v in tables.items()}
+            return Disagreement("S14-slivers", case, summ[ALL_ROUTES[0]], summ, True, f"route {route} gives other nodes/branches than route {ALL_ROUTES[0]} (same traces, same area, same threshold)")
+    return None
+
+
+STREAMS = [s14_routes, s14_fixed_point_io, s14_slivers]
 
 
 def replay(ctx, stream, case):
     if stream == "S14-routes":
         return c01.replay(ctx, stream, case)
+    if stream == "S14-slivers":
+        import_fractopo()
+        return _compare_routes(case)
     r = s14_fixed_point_io(ctx)
     return r.disagreements[0] if r.disagreements else None
